@@ -63,6 +63,8 @@ var originAtoms = func() []originAtom {
 	inv("", "https://1a.xn--9dbne9b.com", "https://*.xn--9dbne9b.1a.example.com", "https://xn--a-bicuf1d.com")
 	// non-ASCII letters that Unicode case mapping turns into ASCII (Kelvin sign, dotted capital I, long s), in host and scheme
 	inv("", "https://\u212aexample.com", "https://example.\u212aom", "http\u017f://example.com", "https://ex\u0130mple.com", "https://*.\u212a.example.com")
+	// labels that start or end with a hyphen, and an over-long label in last position (hyphen-free host)
+	inv("", "https://-example.com", "https://example-.com", "https://*.example-.com", "http://my-service-:8080", "https://www.-a.com", "https://www.example."+strings.Repeat("a", 64), "https://"+strings.Repeat("a", 64))
 	inv("", "https://www.résumé.com", "https://Example.com", "HTTPS://example.com", "https://user@example.com", "https://user:pw@example.com",
 		"https://example.com/", "https://example.com/path", "https://example.com?q=1", "https://example.com#f", " https://example.com", "https://example.com ",
 		"https://example.com:", "https://example.com:0", "https://example.com:65536", "https://example.com:123456", "https://example.com:080",
@@ -86,7 +88,7 @@ type nameAtom struct {
 }
 
 var methodAtomsL = []nameAtom{
-	{longMethod, ""}, {"*", ""}, {"GET", ""}, {"POST", ""}, {"HEAD", ""}, {"PUT", ""}, {"put", ""}, {"Put", ""}, {"DELETE", ""}, {"delete", ""}, {"PATCH", ""}, {"patch", ""},
+	{longMethod, ""}, {hugeMethod, ""}, {"*", ""}, {"GET", ""}, {"POST", ""}, {"HEAD", ""}, {"PUT", ""}, {"put", ""}, {"Put", ""}, {"DELETE", ""}, {"delete", ""}, {"PATCH", ""}, {"patch", ""},
 	{"PURGE", ""}, {"OPTIONS", ""}, {"options", ""}, {"Foo", ""}, {"QUERY", ""}, {"get", ""}, {"M-SEARCH", ""}, {"a!#$%&'*+-.^_`|~9", ""},
 	{"CONNECT", "forbidden"}, {"TRACE", "forbidden"}, {"TRACK", "forbidden"}, {"connect", "forbidden"}, {"Trace", "forbidden"}, {"tRaCk", "forbidden"},
 	{"", "invalid"}, {"GE T", "invalid"}, {"GET,POST", "invalid"}, {"résumé", "invalid"}, {"PO\x00ST", "invalid"}, {"(GET)", "invalid"}, {"GET/", "invalid"},
@@ -98,7 +100,7 @@ var methodAtomsL = []nameAtom{
 // ---- request-header atoms -------------------------------------------------
 
 var reqHdrAtomsL = []nameAtom{
-	{longHeader, ""}, {strings.ToLower(longHeader[:64]), ""}, {longHeader[:65], ""}, {"Proxy-" + longHeader, "forbidden"}, {"*", ""}, {"Authorization", ""}, {"authorization", ""}, {"AUTHORIZATION", ""}, {"Content-Type", ""}, {"content-type", ""}, {"X-Foo", ""}, {"x-foo", ""},
+	{longHeader, ""}, {hugeHeader, ""}, {hugeHeader2, ""}, {hugeHeader3, ""}, {"Sec-" + hugeHeader, "forbidden"}, {strings.ToLower(longHeader[:64]), ""}, {longHeader[:65], ""}, {"Proxy-" + longHeader, "forbidden"}, {"*", ""}, {"Authorization", ""}, {"authorization", ""}, {"AUTHORIZATION", ""}, {"Content-Type", ""}, {"content-type", ""}, {"X-Foo", ""}, {"x-foo", ""},
 	{"X-Bar", ""}, {"x-a", ""}, {"Accept", ""}, {"X-Requested-With", ""}, {"foo", ""}, {"Cache-Control", ""}, {"If-None-Match", ""}, {"x_under", ""}, {"Secx", ""}, {"proxy", ""},
 	{"Accept-Charset", "forbidden"}, {"accept-encoding", "forbidden"}, {"Access-Control-Request-Headers", "forbidden"}, {"access-control-request-method", "forbidden"},
 	{"Access-Control-Request-Private-Network", "forbidden"}, {"Connection", "forbidden"}, {"Content-Length", "forbidden"}, {"Cookie", "forbidden"}, {"cookie2", "forbidden"},
@@ -115,7 +117,7 @@ var reqHdrAtomsL = []nameAtom{
 // ---- response-header atoms ------------------------------------------------
 
 var resHdrAtomsL = []nameAtom{
-	{longHeader, ""}, {longHeader[:65], ""}, {"*", ""}, {"X-Resp", ""}, {"x-resp", ""}, {"Content-Type", ""}, {"Cache-Control", ""}, {"X-Other", ""}, {"ETag", ""}, {"Content-Length", ""}, {"Location", ""},
+	{longHeader, ""}, {hugeHeader, ""}, {longHeader[:65], ""}, {"*", ""}, {"X-Resp", ""}, {"x-resp", ""}, {"Content-Type", ""}, {"Cache-Control", ""}, {"X-Other", ""}, {"ETag", ""}, {"Content-Length", ""}, {"Location", ""},
 	{"Expires", ""}, {"pragma", ""}, {"Last-Modified", ""}, {"content-language", ""}, {"X-B", ""}, {"Cookie", ""}, {"Authorization", ""},
 	{"Set-Cookie", "forbidden"}, {"set-cookie2", "forbidden"}, {"SET-COOKIE", "forbidden"}, {"Set-Cookie2", "forbidden"},
 	{"Origin", "prohibited"}, {"origin", "prohibited"}, {"Access-Control-Request-Method", "prohibited"}, {"access-control-request-headers", "prohibited"},
